@@ -181,6 +181,17 @@ def setExpiry (cs : CState) (k : Nat) (a : SetArgs) : Option CState :=
           if rel ≤ 0 then some (dropKey cs k) else some { cs with exp := NMap.insert k (asU64 rel) cs.exp }
         | none => if !a.keepttl then some { cs with exp := NMap.erase k cs.exp } else some cs
 
+/-- M7's `SET` options as `Command::Set` fields (what the parser builds) -/
+def setArgsOf (c : SetCond) (e : SetExp) (g : Bool) : SetArgs :=
+  { ex := match e with | .ex v => some v | _ => none
+    px := match e with | .px v => some v | _ => none
+    exat := match e with | .exat v => some v | _ => none
+    pxat := match e with | .pxat v => some v | _ => none
+    nx := c == .nx
+    xx := c == .xx
+    get := g
+    keepttl := e == .keepttl }
+
 def oldReply : Option BS → Reply
   | some b => .bulk b
   | none => .nil
@@ -293,6 +304,14 @@ structure GetExArgs where
   pxat : Option Int := none
   persist : Bool := false
   deriving DecidableEq, Repr
+
+/-- M7's `GETEX` option as `Command::GetEx` fields -/
+def getExArgsOf (o : GetExOpt) : GetExArgs :=
+  { ex := match o with | .ex v => some v | _ => none
+    px := match o with | .px v => some v | _ => none
+    exat := match o with | .exat v => some v | _ => none
+    pxat := match o with | .pxat v => some v | _ => none
+    persist := o == .persist }
 
 /-- `execute_getex` -/
 def cGetEx (cs : CState) (k : Nat) (a : GetExArgs) : Option (CState × Reply) :=
